@@ -1,10 +1,16 @@
-(* C01 — property theorems only.  Each is closed by [exact <lemma>] and followed by Print Assumptions. *)
-From FB Require Import C01.Model C01.Theory1 C01.Theory2 C01.Theory3.
+(* C01 — property theorems only.  Each is closed by [exact <lemma>] and followed by Print Assumptions;
+   the statements are pinned here so they cannot be quietly weakened.
+   Model: C01/Model.v (code-array reader, general encoder), Pool.v, Resolve.v, Attr.v; generated
+   tables: C01/Opcodes.v, C01/Tables.v (regenerated from duke's source on every run). *)
+From Coq Require Import Permutation.
+From FB Require Import C01.Model C01.Pool C01.Resolve C01.Attr
+  C01.Theory1 C01.Theory2 C01.Theory3 C01.Theory4 C01.Theory5 C01.Theory6 C01.Examples.
+
+(* ---- the code array ---------------------------------------------------------------------------- *)
 
 (* The first-pass match (instruction boundaries, label creation) and the second-pass match
    (decoding) of read_code agree on every opcode and on every opcode behind the wide prefix: same
-   operand length, a label created exactly for the branch operands.  Both tables are regenerated
-   from the Rust source on every run. *)
+   operand length, a label created exactly for the branch operands. *)
 Theorem C01_passes_agree : forall op, agree_top op = true /\ agree_wide op = true.
 Proof. exact (fun op => conj (agree_top_all op) (agree_wide_all op)). Qed.
 Print Assumptions C01_passes_agree.
@@ -35,3 +41,116 @@ Theorem C01_offset_designates : forall ch body t, (t <= length body)%nat ->
   index_of (posf_of (layout ch body) t) (layout ch body) 0 = Some t.
 Proof. exact offset_designates. Qed.
 Print Assumptions C01_offset_designates.
+
+(* read_encode: the whole Code attribute.  For every body, every choice function and every set of
+   tables over instruction indices (exception ranges whose end may be the code length, line
+   numbers, local-variable ranges, strictly increasing stack-map frames, further offsets), reading
+   the encoded attribute yields [expected body t]: the same instructions with the same targets;
+   exactly the referenced instructions (and the end of the code, if referenced) carry a label;
+   every table entry designates the instruction it was built from; the frames are attached in
+   order to their instructions. *)
+Theorem C01_read_encode : forall ch body bs t,
+  encode ch body = Some bs -> body <> [] -> N.of_nat (length bs) <= 65535 ->
+  targets_ok body -> tables_ok (length body) t ->
+  read_code (code_in_of (posf_of (layout ch body)) t bs) = Ok (expected body t).
+Proof. exact read_encode. Qed.
+Print Assumptions C01_read_encode.
+
+(* tables_resolve, frames: the m-th frame, naming instruction f, ends up on instruction f *)
+Theorem C01_frames_attached : forall cnt k fs j,
+  incr_from k fs -> (forall f, In f fs -> (f < k + cnt)%nat) ->
+  forall m f, nth_error fs m = Some f -> nth_error (attach_idx k cnt fs j) (f - k) = Some (Some (j + m)%nat).
+Proof. exact attach_idx_spec. Qed.
+Print Assumptions C01_frames_attached.
+
+(* ---- the constant pool -------------------------------------------------------------------------- *)
+
+(* two-slot entries: every entry is found at its slot; the slot after a Long/Double holds nothing *)
+Theorem C01_pool_slots : forall es1 e es2,
+  pget (pool_of_entries (es1 ++ e :: es2)) (1 + slots_before es1) = Ok e /\
+  (two_slot e = true -> pget (pool_of_entries (es1 ++ e :: es2)) (2 + slots_before es1) = Err).
+Proof. exact (fun es1 e es2 => conj (pget_pool_of_entries es1 e es2) (pget_second_slot es1 e es2)). Qed.
+Print Assumptions C01_pool_slots.
+
+(* pool_layout_independent: any re-layout of the pool (order, extra entries, duplicates) resolves the
+   renamed index to the same value, for every accessor (loadable constants incl. nested dynamic
+   constants through the bootstrap table, field/method/interface-method references, invokedynamic,
+   classes, constant values, handles, modules, packages) *)
+Theorem C01_pool_layout_independent : forall pi p p' b, pool_iso pi p p' -> forall kind i v,
+  resolve_kind p b kind i = Ok v -> resolve_kind p' (rename_bsm pi b) kind (pi i) = Ok v.
+Proof. exact pool_layout_independent. Qed.
+Print Assumptions C01_pool_layout_independent.
+
+(* … lifted to instruction operands *)
+Theorem C01_insn_layout_independent : forall pi p p' b, pool_iso pi p p' -> forall (i : ainsn (option nat)) x,
+  resolve_insn p b i = Ok x -> resolve_insn p' (rename_bsm pi b) (rename_insn pi i) = Ok x.
+Proof. exact insn_layout_independent. Qed.
+Print Assumptions C01_insn_layout_independent.
+
+(* ---- attributes --------------------------------------------------------------------------------- *)
+
+Theorem C01_attr_framing : forall l rest,
+  N.of_nat (length l) < 65536 -> (forall a, In a l -> attr_raw_ok a) ->
+  parse_attrs (enc_attrs l ++ rest) = Ok (l, rest).
+Proof. exact parse_enc_attrs. Qed.
+Print Assumptions C01_attr_framing.
+
+(* unknown_verbatim: an attribute whose name has no arm is delivered with its bytes untouched; nothing
+   else is delivered as unknown; the order of the file is kept *)
+Theorem C01_unknown_verbatim : forall known (l : list attr) name payload,
+  In (name, payload) l -> mem_str name known = false -> In (name, payload) (unknown_of known l).
+Proof. exact unknown_verbatim. Qed.
+Print Assumptions C01_unknown_verbatim.
+
+Theorem C01_unknown_nothing_invented : forall known (l : list attr) a,
+  In a (unknown_of known l) -> In a l /\ mem_str (fst a) known = false.
+Proof. exact unknown_nothing_invented. Qed.
+Print Assumptions C01_unknown_nothing_invented.
+
+Theorem C01_unknown_in_order : forall known (l1 l2 : list attr),
+  unknown_of known (l1 ++ l2) = unknown_of known l1 ++ unknown_of known l2.
+Proof. exact unknown_in_order. Qed.
+Print Assumptions C01_unknown_in_order.
+
+(* attr_order_independent: for attribute lists with distinct names, every permutation hands every arm
+   the same payload and the visitor the same unknown attributes *)
+Theorem C01_attr_order_independent : forall known (l l' : list attr),
+  NoDup (map fst l) -> Permutation l l' ->
+  (forall name, lookup_attr name l = lookup_attr name l') /\
+  Permutation (unknown_of known l) (unknown_of known l').
+Proof. exact attr_order_independent. Qed.
+Print Assumptions C01_attr_order_independent.
+
+(* nothing_dropped (restricted): every attribute name with an arm of its own is parsed and handed to
+   the visitor or sets its flag — except the two parameter-annotation attributes of methods (F13p) *)
+Theorem C01_nothing_dropped_partial : forall c name, c <= 4 ->
+  known_class_f13p c name = false -> In name (ctx_known c) -> delivered c name.
+Proof. exact nothing_dropped_partial. Qed.
+Print Assumptions C01_nothing_dropped_partial.
+
+Theorem C01_nothing_dropped_refuted : exists c name,
+  known_class_f13p c name = true /\ In name (ctx_known c) /\ ~ delivered c name.
+Proof. exact nothing_dropped_refuted. Qed.
+Print Assumptions C01_nothing_dropped_refuted.
+
+(* F13 repaired: read_code calls visit_local_variables *)
+Theorem C01_local_variables_visited : mem_str s_visit_local_variables code_visits = true.
+Proof. exact local_variables_visited. Qed.
+Print Assumptions C01_local_variables_visited.
+
+(* ---- access flags ------------------------------------------------------------------------------- *)
+
+Theorem C01_access_roundtrip : forall kind v, kind <= 8 -> v < 65536 ->
+  access_back kind v = N.land v (mask_of (fst (flag_tables kind))).
+Proof. exact access_roundtrip. Qed.
+Print Assumptions C01_access_roundtrip.
+
+Theorem C01_flags_match_jvms : forall kind, kind <= 8 ->
+  fst (flag_tables kind) = jvms_flags kind /\ snd (flag_tables kind) = jvms_flags kind.
+Proof. exact flags_match_jvms. Qed.
+Print Assumptions C01_flags_match_jvms.
+
+(* ---- non-vacuity -------------------------------------------------------------------------------- *)
+Theorem C01_examples : nonvacuous.
+Proof. exact nonvacuous_holds. Qed.
+Print Assumptions C01_examples.
